@@ -91,6 +91,15 @@ func (a *adapterBase) Begin(cfg AdapterConfig, cb ProgressCallback) error {
 	for i := 0; i < maxConcurrency; i++ {
 		ctx, err := a.transferImpl.WorkerStarting(i)
 		if err != nil {
+			// Stop the workers that were already started and forget
+			// the ones that never will be, so that a later Begin()
+			// and End() do not wait for them forever.
+			a.workerWait.Add(-(maxConcurrency - i))
+			close(a.jobChan)
+			if i == 0 {
+				a.authWait.Done()
+			}
+			a.workerWait.Wait()
 			return err
 		}
 		go a.worker(i, ctx)
